@@ -335,7 +335,7 @@ class Exec:
                 return bv(int(m.group(1)), w)
             if c in ("true", "false"):
                 return tt() if c == "true" else ff()
-            m = re.fullmatch(r"([iu](?:8|16|32|64|128|size))::(MIN|MAX)", c)
+            m = re.fullmatch(r"(?:core::num::<impl )?([iu](?:8|16|32|64|128|size))>?::(MIN|MAX)", c)
             if m:
                 w, sg = INT_TYPES[m.group(1)]
                 if m.group(2) == "MIN":
@@ -540,6 +540,19 @@ class Exec:
         if callee in self.summaries["fns"]:
             self.used_summaries.add(callee)
             return self.summaries["fns"][callee](args, panics, cond)
+        m = re.fullmatch(r"<([iu](?:8|16|32|64|128|size)) as TryFrom<([iu](?:8|16|32|64|128|size))>>::try_from", callee)
+        if m:
+            # trusted summary: Ok(v as T) exactly when the mathematical value of v fits T, Err otherwise
+            self.used_summaries.add("TryFrom<%s> for %s" % (m.group(2), m.group(1)))
+            (tw, tsg), (sw, ssg) = INT_TYPES[m.group(1)], INT_TYPES[m.group(2)]
+            v = args[0]
+            W = max(tw, sw) + 1
+            wide = sext(v, W) if ssg else zext(v, W)
+            lo = -(1 << (tw - 1)) if tsg else 0
+            hi = ((1 << (tw - 1)) - 1) if tsg else ((1 << tw) - 1)
+            fits = AND(app("bvsge", "bool", wide, bv(lo & ((1 << W) - 1), W)), app("bvsle", "bool", wide, bv(hi, W)))
+            res = extract(wide, tw - 1, 0)
+            return [(tt(), {"disc": ite(fits, bv(0, 64), bv(1, 64)), "variants": {"Ok": [res], "Err": [{"unit": bv(0, 8)}]}})]
         raise Unknown("call to unknown function: " + callee)
 
 
@@ -705,6 +718,7 @@ SUMMARY_DOC = [
     "summary: Duration = (secs: u64, nanos: u32 < 1e9); Duration::new carries nanos >= 1e9 into secs and panics on overflow",
     "summary: SystemTime = Unix timespec (secs: i64, nanos: u32 < 1e9); duration_since(UNIX_EPOCH) is Ok(d) for secs >= 0 and Err(epoch - t) otherwise; checked_add/checked_sub as in std's Timespec (None when the i64 seconds overflow)",
     "summary: Option::unwrap_or",
+    "summary: <T as TryFrom<S>>::try_from on integers = Ok(v) iff v fits T",
     "summary: Duration::as_nanos = secs * 1e9 + nanos as u128; iN::div_euclid = floor-style Euclidean quotient (panics on /0 and MIN/-1); Ord::max/min on integers",
     "summary: promoted constants &UNIX_EPOCH = (0, 0)",
 ]
